@@ -408,6 +408,23 @@ impl Builtins {
         panic!("BUG: all branches should return in convert - translator emitted wrong opcode sequence");
     }
 
+    // The functional operations call their function with a fixed number of
+    // arguments that depends on what they iterate over.
+    fn check_arity(f: &super::Func, expected: usize, pos: &Position) -> Result<(), Error> {
+        if f.bindings.len() != expected {
+            return Err(Error::new(
+                format!(
+                    "Function called with {} args but it expects {}",
+                    expected,
+                    f.bindings.len()
+                )
+                .into(),
+                pos.clone(),
+            ));
+        }
+        Ok(())
+    }
+
     fn map<O, E>(
         &self,
         stack: &mut Vec<(Rc<Value>, Position)>,
@@ -443,6 +460,7 @@ impl Builtins {
                 let mut result_elems = Vec::new();
                 let mut pos_elems = Vec::new();
                 for (counter, e) in elems.iter().enumerate() {
+                    Self::check_arity(f, 1, &pos)?;
                     // push function argument on the stack.
                     let e_pos = elems_pos_list[counter].clone();
                     stack.push((e.clone(), e_pos.clone()));
@@ -458,6 +476,7 @@ impl Builtins {
                 let mut new_fields = Vec::new();
                 let mut new_flds_pos_list = Vec::new();
                 for (counter, (name, val)) in flds.iter().enumerate() {
+                    Self::check_arity(f, 2, &pos)?;
                     let name_pos = flds_pos_list[counter].0.clone();
                     let val_pos = flds_pos_list[counter].1.clone();
                     stack.push((Rc::new(P(Str(name.clone()))), name_pos));
@@ -489,6 +508,7 @@ impl Builtins {
             P(Str(ref s)) => {
                 let mut buf = String::new();
                 for c in s.chars() {
+                    Self::check_arity(f, 1, &pos)?;
                     stack.push((Rc::new(P(Str(c.to_string().into()))), list_pos.clone()));
                     // call function and push it's result on the stack.
                     let (result, result_pos) = decorate_call!(pos =>
@@ -549,6 +569,7 @@ impl Builtins {
                 let mut result_elems = Vec::new();
                 let mut pos_elems = Vec::new();
                 for (counter, e) in elems.iter().enumerate() {
+                    Self::check_arity(f, 1, &pos)?;
                     // push function argument on the stack.
                     let e_pos = elems_pos_list[counter].clone();
                     stack.push((e.clone(), e_pos.clone()));
@@ -573,6 +594,7 @@ impl Builtins {
                 let mut new_fields = Vec::new();
                 let mut new_flds_pos_list = Vec::new();
                 for (counter, (name, val)) in flds.iter().enumerate() {
+                    Self::check_arity(f, 2, &pos)?;
                     let name_pos = pos_list[counter].0.clone();
                     let val_pos = pos_list[counter].1.clone();
                     stack.push((Rc::new(P(Str(name.clone()))), name_pos.clone()));
@@ -596,6 +618,7 @@ impl Builtins {
             P(Str(ref s)) => {
                 let mut buf = String::new();
                 for c in s.chars() {
+                    Self::check_arity(f, 1, &pos)?;
                     stack.push((Rc::new(P(Str(c.to_string().into()))), list_pos.clone()));
                     // call function and push it's result on the stack.
                     let (condition, _) = decorate_call!(pos =>
@@ -695,6 +718,7 @@ impl Builtins {
         match *list.as_ref() {
             C(List(ref elems, ref elems_pos_list)) => {
                 for (counter, e) in elems.iter().enumerate() {
+                    Self::check_arity(f, 2, &pos)?;
                     let e_pos = elems_pos_list[counter].clone();
                     // push function arguments on the stack.
                     stack.push((acc.clone(), acc_pos.clone()));
@@ -708,6 +732,7 @@ impl Builtins {
             }
             C(Tuple(ref _flds, ref flds_pos_list)) => {
                 for (counter, (name, val)) in _flds.iter().enumerate() {
+                    Self::check_arity(f, 3, &pos)?;
                     let name_pos = flds_pos_list[counter].0.clone();
                     let val_pos = flds_pos_list[counter].1.clone();
                     // push function arguments on the stack.
@@ -723,6 +748,7 @@ impl Builtins {
             }
             P(Str(ref s)) => {
                 for c in s.chars() {
+                    Self::check_arity(f, 2, &pos)?;
                     // push function arguments on the stack.
                     stack.push((acc.clone(), acc_pos.clone()));
                     stack.push((Rc::new(P(Str(c.to_string().into()))), list_pos.clone()));
